@@ -8,14 +8,17 @@ enum { A_CALLBACK_AWAIT, A_CALLBACK_AWAIT_ALLOC, A_MAKE_PROMISE, A_MAKE_PROMISE_
        A_CALL_FN_AWAITER, A_CONV_VOID_SOURCE, A_CONV_FREE_CTX, A_COUNT };
 enum { O_VALUE, O_EXC, O_DROP };
 enum { T_BEFORE, T_LATER_SAME_THREAD, T_OTHER_THREAD };
-struct Prog { uint8_t adapter, outcome, timing, conv_throws, yields; uint8_t rearm = 0; uint8_t declines = 0; uint8_t in_coro = 0; uint8_t refconv = 0; };   // refconv (value-returning converters with a source argument): the converter returns a REFERENCE (outer future<int &>)   // in_coro (callback_await forms): the registration is made from inside a running coroutine   // declines (promise-passing converter): it returns without touching the promise it was handed   // rearm (call_fn_future_awaiter): the handler starts a second operation on the same awaiter
+struct Prog { uint8_t adapter, outcome, timing, conv_throws, yields; uint8_t rearm = 0; uint8_t declines = 0; uint8_t in_coro = 0; uint8_t refconv = 0; uint8_t counted = 0; };   // counted (callback_await forms): the awaited future carries an instance-counted value, which must still be alive when the callback looks at it
+//   // refconv (value-returning converters with a source argument): the converter returns a REFERENCE (outer future<int &>)   // in_coro (callback_await forms): the registration is made from inside a running coroutine   // declines (promise-passing converter): it returns without touching the promise it was handed   // rearm (call_fn_future_awaiter): the handler starts a second operation on the same awaiter
 
 inline Prog decode(hz::Reader &r) {
     Prog p; p.adapter = (uint8_t)r.mod(A_COUNT); p.outcome = (uint8_t)r.mod(3); p.timing = (uint8_t)r.mod(3); p.conv_throws = (uint8_t)(r.mod(4) == 0); p.yields = (uint8_t)r.mod(4);
     p.rearm = (uint8_t)(r.mod(4) != 0 && p.adapter == A_CALL_FN_AWAITER);
     p.declines = (uint8_t)(r.mod(2) == 1 && p.adapter == A_CONV_PROMISE_PASSING);
     p.in_coro = (uint8_t)(r.mod(2) == 1 && (p.adapter == A_CALLBACK_AWAIT || p.adapter == A_CALLBACK_AWAIT_ALLOC));
+    p.counted = 0;
     p.refconv = (uint8_t)(r.mod(2) == 1 && (p.adapter == A_CONV_MEMBER || p.adapter == A_CONV_FREE || p.adapter == A_CONV_FREE_CTX));
+    p.counted = (uint8_t)(r.mod(2) == 1 && !p.in_coro && (p.adapter == A_CALLBACK_AWAIT || p.adapter == A_CALLBACK_AWAIT_ALLOC));
     return p;
 }
 inline std::string describe(const Prog &p) {
@@ -25,6 +28,7 @@ inline std::string describe(const Prog &p) {
     static const char *tn[] = {"resolved before registration", "resolved later on the same thread", "resolved concurrently on another thread"};
     hz::Desc d; d << an[p.adapter] << " x " << on[p.outcome] << " x " << tn[p.timing] << (p.conv_throws ? " (converter throws)" : "") << ", yield*" << (unsigned)p.yields;
     if (p.in_coro) d << "; registered from inside a running coroutine (the helper starts after the registering expression has ended: it owns copies of the arguments)";
+    if (p.counted) d << "; the awaited future carries an instance-counted value (alive while the callback looks at it, destroyed afterwards)";
     if (p.refconv) d << "; the converter returns a reference to an object it selects (outer future<int &>: it must refer to exactly that object)";
     if (p.declines) d << "; the converter declines: it returns without resolving or moving the promise (the outer future then ends as a broken promise)";
     if (p.rearm) d << "; the completion handler re-arms the awaiter with a second operation (resolved with a value the same way) and keeps working for a while";
@@ -38,7 +42,7 @@ struct TrackStorage {
 
 struct World {
     Prog p;
-    cocls::promise<int> kept; cocls::promise<void> vkept;
+    cocls::promise<int> kept; cocls::promise<void> vkept; cocls::promise<val::Counted> ckept;
     std::atomic<int> promise_available{0};
     std::atomic<int> done{0};
     int calls = 0; int code = -100;
@@ -59,6 +63,15 @@ struct World {
     }
     void resolve_void(cocls::promise<void> &pr) {
         if (p.outcome == O_VALUE) pr(); else if (p.outcome == O_EXC) pr(std::make_exception_ptr(val::TestExc(5))); else pr(cocls::drop);
+    }
+    void resolve_counted(cocls::promise<val::Counted> &pr) {
+        if (p.outcome == O_VALUE) pr(val::Counted(42)); else if (p.outcome == O_EXC) pr(std::make_exception_ptr(val::TestExc(5))); else pr(cocls::drop);
+    }
+    cocls::future<val::Counted> csource() {
+        return cocls::future<val::Counted>([this](cocls::promise<val::Counted> pr) {
+            if (p.timing == T_BEFORE) resolve_counted(pr);
+            else { ckept = std::move(pr); promise_available.store(1, std::memory_order_release); }
+        });
     }
     // the awaited operation
     cocls::future<int> source() {
@@ -131,7 +144,7 @@ inline void run(hz::Reader &r) {
         if (p.timing == T_OTHER_THREAD) resolver = std::thread([&w, &p] {
             while (!w.promise_available.load(std::memory_order_acquire)) vrt::yield();
             hz::upoints(p.yields);
-            if (p.adapter == A_CONV_VOID_SOURCE) w.resolve_void(w.vkept); else w.resolve_int(w.kept);
+            if (p.adapter == A_CONV_VOID_SOURCE) w.resolve_void(w.vkept); else if (p.counted) w.resolve_counted(w.ckept); else w.resolve_int(w.kept);
         });
         // the second operation is completed by a thread of its own, so that its completion can overlap the tail of the first one
         std::thread resolver2;
@@ -155,9 +168,11 @@ inline void run(hz::Reader &r) {
         World *pw = &w;
         w.rearm_fn = [pw, &cfa] { cfa << [pw] { return pw->source2(); }; };
         auto cb = [pw](cocls::await_result<int> res) { pw->fired(World::guarded([&] { return res.get(); })); };
+        // (-3: the value was already destroyed - or never completely constructed - when the callback looked at it)
+        auto ccb = [pw](cocls::await_result<val::Counted> res) { pw->fired(World::guarded([&] { return res.get().val(); })); };
         switch (p.adapter) {
-            case A_CALLBACK_AWAIT: if (p.in_coro) { register_in_coro(pw, &stor, false, cb).join(); break; } cocls::callback_await<cocls::future<int>>(cb, [pw] { return pw->source(); }); break;
-            case A_CALLBACK_AWAIT_ALLOC: if (p.in_coro) { register_in_coro(pw, &stor, true, cb).join(); break; } cocls::callback_await_alloc<TrackStorage, cocls::future<int>>(stor, cb, [pw] { return pw->source(); }); break;
+            case A_CALLBACK_AWAIT: if (p.counted) { cocls::callback_await<cocls::future<val::Counted>>(ccb, [pw] { return pw->csource(); }); break; } if (p.in_coro) { register_in_coro(pw, &stor, false, cb).join(); break; } cocls::callback_await<cocls::future<int>>(cb, [pw] { return pw->source(); }); break;
+            case A_CALLBACK_AWAIT_ALLOC: if (p.counted) { cocls::callback_await_alloc<TrackStorage, cocls::future<val::Counted>>(stor, ccb, [pw] { return pw->csource(); }); break; } if (p.in_coro) { register_in_coro(pw, &stor, true, cb).join(); break; } cocls::callback_await_alloc<TrackStorage, cocls::future<int>>(stor, cb, [pw] { return pw->source(); }); break;
             case A_MAKE_PROMISE: case A_MAKE_PROMISE_STORAGE: {
                 auto fn = [pw](cocls::future<int> &f) { pw->fired(World::guarded([&] { return f.value(); })); };
                 // (rvalue: the helper then owns a copy of the callback; an lvalue would be stored by reference)
@@ -176,7 +191,7 @@ inline void run(hz::Reader &r) {
         }
         hz::upoints(p.yields);
         if (p.timing == T_LATER_SAME_THREAD && !make_promise_kind) {
-            if (p.adapter == A_CONV_VOID_SOURCE) w.resolve_void(w.vkept); else w.resolve_int(w.kept);
+            if (p.adapter == A_CONV_VOID_SOURCE) w.resolve_void(w.vkept); else if (p.counted) w.resolve_counted(w.ckept); else w.resolve_int(w.kept);
         }
         if (resolver.joinable()) resolver.join();
         if (resolver2.joinable()) resolver2.join();
@@ -207,22 +222,23 @@ inline void run(hz::Reader &r) {
             HZ_CHECK(hz::slot_get(31) == 1, "helper block from the supplied storage was released %ld times (exactly once expected)", hz::slot_get(31));
         }
     }
-    hz::set_class(p.adapter); hz::count(0, p.refconv);
+    if (p.counted) val::check_counted_balance("end of case");
+    hz::set_class(p.adapter); hz::count(0, p.refconv); hz::count(1, p.counted);
     hz::set_nontrivial(p.timing == T_OTHER_THREAD ? vrt::stats().switches > 0 : true);
 }
 
 static const char *const class_names[] = {"callback_await", "callback_await_alloc", "make_promise", "make_promise+storage", "discard", "conv:member", "conv:free", "conv:promise-passing", "call_fn_future_awaiter", "conv:void-source", "conv:free+context"};
-static const char *const counter_names[] = {"converters_returning_a_reference"};
+static const char *const counter_names[] = {"converters_returning_a_reference", "callback_await_of_an_instance_counted_value"};
 } // namespace c18
 
 namespace hz {
 static const Info I = {
-    "C18", 1, 14, 100000, true, true,
+    "C18", 1, 15, 100000, true, true,
     "rapidcheck generates (program, schedule, faults): adapter in {callback_await, callback_await_alloc with a tracking storage, make_promise(fn), make_promise(fn, storage), discard, future_conv (member / free / free+context / promise-passing / void-source forms, "
     "converter optionally throwing), call_fn_future_awaiter} x outcome {value, exception, drop} x timing {resolved before registration, later on the same thread, concurrently on another thread of the virtual runtime}. "
     "Oracle: the completion ran exactly once with exactly that outcome (value / same exception / broken promise), converters deliver value+1 or the source's or the converter's exception to the outer future, the helper block of the supplied storage is "
     "allocated and released exactly once, global allocation balance 0, ASan, deadlock detector. Non-trivial = every sequential case, concurrent cases with >=1 context switch; distinct = hash(decoded program, executed switch trace).",
-    c18::class_names, 11, c18::counter_names, 1};
+    c18::class_names, 11, c18::counter_names, 2};
 const Info &info() { return I; }
 void run_case(Reader &r) { c18::run(r); }
 std::string describe(Reader &r) { return c18::describe(c18::decode(r)); }
